@@ -1,1 +1,1183 @@
-(* placeholder *)
+(* Property C08: no peer crashes on traffic a conforming peer can send.
+   Part 1: exact local conditions under which the model sets p_panic (all states, orders, oracles).
+   Part 2: global no-panic theorems over all traces.
+   Part 3: a peer that ignores a message keeps running; the flag is the only thing that stops it. *)
+From stdpp Require Import gmap list.
+From Coq Require Import NArith Lia.
+From RecordUpdate Require Import RecordSet.
+From BS Require Import Sync.Types Sync.Model Sync.Observe Sync.Proofs.PanicLemmas.
+Import RecordSetNotations.
+Local Open Scope N_scope.
+
+(* ================================================================================================ *)
+(* Part 1: local characterisation                                                                   *)
+(* ================================================================================================ *)
+
+(* 1a. exact outcomes of the partial operations (from PanicLemmas) *)
+
+Theorem add_child_panic_exact pr p c :
+  p_panic pr = None ->
+  p_panic (add_child pr p c) =
+  if negb (alive pr p) then Some PEntityMutDead else if p =? c then Some PSetParentSelf else None.
+Proof. apply add_child_panic. Qed.
+
+Theorem apply_cmd_panic_exact pr c :
+  p_panic pr = None -> p_panic (apply_cmd pr c) = cmd_panics pr c.
+Proof. apply apply_cmd_panic. Qed.
+
+Definition op_panics (pr : peer_state) (op : app_op) : option panic_site :=
+  match op with
+  | OSetParent c p =>
+      if alive pr c then
+        if negb (alive pr p) then Some PEntityMutDead else if p =? c then Some PSetParentSelf else None
+      else None
+  | _ => None
+  end.
+
+Theorem app_step_panic_exact pr op :
+  p_panic pr = None -> p_panic (app_step pr op) = op_panics pr op.
+Proof.
+  intros Hn. destruct op; simpl; try exact Hn; try (rewrite upd_ent_panic; exact Hn).
+  - destruct (alive pr c); [apply add_child_panic; exact Hn|exact Hn].
+  - destruct host; exact Hn.
+Qed.
+
+(* which command kinds can panic, and where *)
+Lemma cmd_panics_sites pr c s :
+  cmd_panics pr c = Some s ->
+  (s = PSetParentSelf /\ is_set_parent c) \/ (s = PInsertDead /\ exists e t v, c = CAppInsert e t v).
+Proof.
+  destruct c; simpl; try discriminate.
+  - destruct (t_u2e pr !! c) as [ce|]; [|discriminate].
+    destruct (t_u2e pr !! p) as [pe|]; [|discriminate].
+    destruct (_ && _); [|discriminate]. unfold set_parent_outcome.
+    destruct (pe =? ce); [|discriminate]. intros H. injection H as <-. left. split; [reflexivity|exact I].
+  - destruct (_ && _); [|discriminate]. unfold set_parent_outcome.
+    destruct (p =? c); [|discriminate]. intros H. injection H as <-. left. split; [reflexivity|exact I].
+  - destruct (alive pr e); [discriminate|]. intros H. injection H as <-. right. split; [reflexivity|eauto].
+Qed.
+
+(* the receivers check liveness first: a deferred command never hits add_child on a dead parent *)
+Definition frame_sites (pr : peer_state) : Prop :=
+  p_panic pr = None \/ p_panic pr = Some PSetParentSelf \/ p_panic pr = Some PInsertDead.
+
+Lemma frame_sites_respects : respects_core frame_sites.
+Proof. intros pr pr' H _. unfold frame_sites. rewrite (core_panic _ _ H). auto. Qed.
+
+Lemma frame_sites_apply_cmd pr c : p_panic pr = None -> frame_sites (apply_cmd pr c).
+Proof.
+  intros Hn. unfold frame_sites. rewrite (apply_cmd_panic pr c Hn).
+  destruct (cmd_panics pr c) as [s|] eqn:E; [|auto].
+  apply cmd_panics_sites in E as [[-> _]|[-> _]]; auto.
+Qed.
+
+Lemma frame_sites_flush pr : frame_sites pr -> frame_sites (flush pr).
+Proof.
+  apply (flush_inv frame_sites (fun _ => True)).
+  - intros a _ ? ? ? _ _. exact I.
+  - intros a k Ha. exact Ha.
+  - intros a c _ _ Hn. apply frame_sites_apply_cmd. exact Hn.
+Qed.
+
+Lemma frame_sites_sys_body pr s o k last : frame_sites pr -> frame_sites (sys_body pr s o k last).
+Proof.
+  unfold frame_sites. destruct (pe_inv _ _ (sys_body_pe pr s o k last)) as [-> _]. auto.
+Qed.
+
+Theorem flush_panic_sites pr :
+  p_panic pr = None -> p_panic (flush pr) <> Some PEntityMutDead.
+Proof.
+  intros Hn. destruct (frame_sites_flush pr (or_introl Hn)) as [H|[H|H]]; rewrite H; discriminate.
+Qed.
+
+Theorem run_system_panic_sites pr s o :
+  p_panic pr = None -> p_panic (run_system pr s o) <> Some PEntityMutDead.
+Proof.
+  intros Hn.
+  assert (H : frame_sites (run_system pr s o)).
+  { apply run_system_inv; [exact frame_sites_respects| | |left; exact Hn].
+    - intros a Ha _. apply frame_sites_flush. exact Ha.
+    - apply run_body_inv; [exact frame_sites_respects|]. intros a s' o' k last. apply frame_sites_sys_body. }
+  destruct H as [H|[H|H]]; rewrite H; discriminate.
+Qed.
+
+Lemma frame_frame_sites pr o : frame_sites pr -> frame_sites (frame pr o).
+Proof.
+  apply frame_inv.
+  - exact frame_sites_respects.
+  - intros a Ha. exact Ha.
+  - intros a h Ha. unfold frame_sites. rewrite (core_panic _ _ (send_up_core _ _)). exact Ha.
+  - intros a Ha _. apply frame_sites_flush. exact Ha.
+  - intros a s' o' k last. apply frame_sites_sys_body.
+Qed.
+
+(* every state, order and oracle: a frame never produces PEntityMutDead *)
+Theorem frame_panic_sites pr o :
+  p_panic pr = None -> p_panic (frame pr o) <> Some PEntityMutDead.
+Proof.
+  intros Hn. destruct (frame_frame_sites pr o (or_introl Hn)) as [H|[H|H]]; rewrite H; discriminate.
+Qed.
+
+(* 1b. without the application's insert command, the only panic left is the self-parent link *)
+
+Definition not_app_insert (c : cmd) : Prop := match c with CAppInsert _ _ _ => False | _ => True end.
+Definition no_app_insert (pr : peer_state) : Prop :=
+  cmdq_all not_app_insert pr /\ app_all not_app_insert pr.
+Definition self_parent_only (pr : peer_state) : Prop :=
+  p_panic pr = None \/ p_panic pr = Some PSetParentSelf.
+
+Definition any_msg (_ : msg) : Prop := True.
+Definition I1 (pr : peer_state) : Prop := GI false not_app_insert any_msg pr /\ self_parent_only pr.
+
+Lemma benign_not_app_insert c : benign c -> not_app_insert c.
+Proof. destruct c; simpl; auto. Qed.
+
+Lemma I1_intro pr : no_app_insert pr -> self_parent_only pr -> I1 pr.
+Proof. intros [H1 H2] H3. split; [|exact H3]. repeat split; assumption. Qed.
+
+Lemma I1_core pr pr' : core pr' = core pr -> I1 pr -> I1 pr'.
+Proof.
+  intros H [H1 H2]. split; [eapply GI_core; eassumption|].
+  unfold self_parent_only. rewrite (core_panic _ _ H). exact H2.
+Qed.
+Lemma I1_respects : respects_core I1.
+Proof. intros pr pr' H _. apply I1_core. exact H. Qed.
+
+Lemma I1_apply_cmd pr c : I1 pr -> not_app_insert c -> p_panic pr = None -> I1 (apply_cmd pr c).
+Proof.
+  intros [H1 _] Hc Hn. split; [apply GI_apply_cmd; exact H1|].
+  unfold self_parent_only. rewrite (apply_cmd_panic pr c Hn).
+  destruct (cmd_panics pr c) as [s|] eqn:E; [|auto].
+  apply cmd_panics_sites in E as [[-> _]|[_ (e & t & v & ->)]]; [auto|contradiction].
+Qed.
+
+Lemma I1_flush pr : I1 pr -> I1 (flush pr).
+Proof.
+  apply (flush_inv I1 not_app_insert).
+  - intros a [Ha _]. apply Ha.
+  - intros a k [Ha Hp]. split; [apply GI_delete; exact Ha|exact Hp].
+  - apply I1_apply_cmd.
+Qed.
+
+Lemma I1_sys_body pr s o k last : I1 pr -> I1 (sys_body pr s o k last).
+Proof.
+  intros [H1 H2]. split.
+  - apply sys_body_GI; [exact benign_not_app_insert| | |exact H1].
+    + intros from cu pu _. exact I.
+    + intros a cu pu ce pe _ _ _ _. exact I.
+  - unfold self_parent_only. destruct (pe_inv _ _ (sys_body_pe pr s o k last)) as [-> _]. exact H2.
+Qed.
+
+Lemma I1_frame pr o : I1 pr -> I1 (frame pr o).
+Proof.
+  apply frame_inv.
+  - exact I1_respects.
+  - intros a. apply I1_core. reflexivity.
+  - intros a h. apply I1_core. apply send_up_core.
+  - intros a Ha _. apply I1_flush. exact Ha.
+  - intros a s' o' k last. apply I1_sys_body.
+Qed.
+
+Theorem flush_panic_only_self_parent pr :
+  p_panic pr = None -> no_app_insert pr ->
+  p_panic (flush pr) = None \/ p_panic (flush pr) = Some PSetParentSelf.
+Proof. intros Hn H. apply (I1_flush pr (I1_intro pr H (or_introl Hn))). Qed.
+
+Theorem run_system_panic_only_self_parent pr s o :
+  p_panic pr = None -> no_app_insert pr ->
+  p_panic (run_system pr s o) = None \/ p_panic (run_system pr s o) = Some PSetParentSelf.
+Proof.
+  intros Hn H.
+  refine (proj2 (run_system_inv I1 I1_respects _ _ pr s o (I1_intro pr H (or_introl Hn)))).
+  - intros a Ha _. apply I1_flush. exact Ha.
+  - apply run_body_inv; [exact I1_respects|]. intros a s' o' k last. apply I1_sys_body.
+Qed.
+
+(* every state, order and oracle *)
+Theorem frame_panic_only_self_parent pr o :
+  p_panic pr = None -> no_app_insert pr ->
+  p_panic (frame pr o) = None \/ p_panic (frame pr o) = Some PSetParentSelf.
+Proof. intros Hn H. apply (I1_frame pr o (I1_intro pr H (or_introl Hn))). Qed.
+
+Theorem frame_no_app_insert pr o : p_panic pr = None -> no_app_insert pr -> no_app_insert (frame pr o).
+Proof.
+  intros Hn H. destruct (I1_frame pr o (I1_intro pr H (or_introl Hn))) as [(H1 & H2 & _) _].
+  split; assumption.
+Qed.
+
+(* 1c. ruling out the self-parent link: no panic at all *)
+
+(* queued commands (of the systems and of the application) that cannot panic *)
+Definition cmd_ok (c : cmd) : Prop :=
+  match c with
+  | CAppInsert _ _ _ => False
+  | CSetParentSrv _ cu pu => cu <> pu
+  | CSetParentCli c p => c <> p
+  | _ => True
+  end.
+(* in-flight messages: no link of an entity to itself *)
+Definition msg_ok (m : msg) : Prop := match m with MParented c p => c <> p | _ => True end.
+
+(* parents_ok: every queued command is cmd_ok; no inbox holds MParented u u; uuid_to_entity is
+   injective, maps below the entity allocator, registers script entities (ids below 2^32) under
+   their own id only; the allocator is at or above 2^32; only script entities carry SyncMark.
+   The last three conditions are what keeps uuid_to_entity injective *during* the frame. *)
+Definition parents_ok (pr : peer_state) : Prop := GI true cmd_ok msg_ok pr.
+
+Lemma parents_ok_unfold pr :
+  parents_ok pr <->
+  (forall k cs c, p_cmdq pr !! k = Some cs -> c ∈ cs -> cmd_ok c) /\
+  (forall x, x ∈ p_app_cmds pr -> cmd_ok x.2) /\
+  (forall s l m, n_inbox pr !! s = Some l -> m ∈ l -> msg_ok m) /\
+  (forall u1 u2 e, t_u2e pr !! u1 = Some e -> t_u2e pr !! u2 = Some e -> u1 = u2) /\
+  (forall u e, t_u2e pr !! u = Some e -> e < p_next_ent pr /\ (e < 4294967296 -> u = e)) /\
+  4294967296 <= p_next_ent pr /\
+  (forall e en, p_ents pr !! e = Some en -> en_mark en <> None -> e < 4294967296).
+Proof. unfold parents_ok, GI, GS, u2e_ok, u2e_ok_, cmdq_all, app_all, inbox_all, mark_ok, SCRIPT_LIMIT. tauto. Qed.
+
+Definition I2 (pr : peer_state) : Prop := parents_ok pr /\ p_panic pr = None.
+
+Lemma benign_cmd_ok c : benign c -> cmd_ok c.
+Proof. destruct c; simpl; auto. Qed.
+
+Lemma cmd_ok_no_panic pr c : u2e_ok pr -> cmd_ok c -> cmd_panics pr c = None.
+Proof.
+  intros Hu Hc. destruct c; simpl; simpl in Hc; try reflexivity; try contradiction.
+  - destruct (t_u2e pr !! c) as [ce|] eqn:Ec; [|reflexivity].
+    destruct (t_u2e pr !! p) as [pe|] eqn:Ep; [|reflexivity].
+    destruct (_ && _); [|reflexivity]. unfold set_parent_outcome.
+    destruct (pe =? ce) eqn:E; [|reflexivity]. apply N.eqb_eq in E. subst pe.
+    exfalso. apply Hc. eapply u2e_ok_inj; eassumption.
+  - destruct (_ && _); [|reflexivity]. unfold set_parent_outcome.
+    destruct (p =? c) eqn:E; [|reflexivity]. apply N.eqb_eq in E. congruence.
+Qed.
+
+Lemma I2_core pr pr' : core pr' = core pr -> I2 pr -> I2 pr'.
+Proof.
+  intros H [H1 H2]. split; [eapply GI_core; eassumption|]. rewrite (core_panic _ _ H). exact H2.
+Qed.
+Lemma I2_respects : respects_core I2.
+Proof. intros pr pr' H _. apply I2_core. exact H. Qed.
+
+Lemma I2_apply_cmd pr c : I2 pr -> cmd_ok c -> p_panic pr = None -> I2 (apply_cmd pr c).
+Proof.
+  intros [H1 _] Hc Hn. split; [apply GI_apply_cmd; exact H1|].
+  rewrite (apply_cmd_panic pr c Hn). apply cmd_ok_no_panic; [apply H1|exact Hc].
+Qed.
+
+Lemma I2_flush pr : I2 pr -> I2 (flush pr).
+Proof.
+  apply (flush_inv I2 cmd_ok).
+  - intros a [Ha _]. apply Ha.
+  - intros a k [Ha Hp]. split; [apply GI_delete; exact Ha|exact Hp].
+  - apply I2_apply_cmd.
+Qed.
+
+Lemma I2_sys_body pr s o k last : I2 pr -> I2 (sys_body pr s o k last).
+Proof.
+  intros [H1 H2]. split.
+  - apply sys_body_GI; [exact benign_cmd_ok| | |exact H1].
+    + intros from cu pu Hm. exact Hm.
+    + intros a cu pu ce pe Hu Hm Hc Hp. simpl in *. intros ->. apply Hm.
+      eapply u2e_ok_inj; eassumption.
+  - destruct (pe_inv _ _ (sys_body_pe pr s o k last)) as [-> _]. exact H2.
+Qed.
+
+Lemma I2_frame pr o : I2 pr -> I2 (frame pr o).
+Proof.
+  apply frame_inv.
+  - exact I2_respects.
+  - intros a. apply I2_core. reflexivity.
+  - intros a h. apply I2_core. apply send_up_core.
+  - intros a Ha _. apply I2_flush. exact Ha.
+  - intros a s' o' k last. apply I2_sys_body.
+Qed.
+
+Theorem apply_cmd_no_panic pr c :
+  p_panic pr = None -> parents_ok pr -> cmd_ok c ->
+  p_panic (apply_cmd pr c) = None /\ parents_ok (apply_cmd pr c).
+Proof. intros Hn H Hc. destruct (I2_apply_cmd pr c (conj H Hn) Hc Hn) as [H1 H2]. auto. Qed.
+
+Theorem flush_no_panic pr :
+  p_panic pr = None -> parents_ok pr -> p_panic (flush pr) = None /\ parents_ok (flush pr).
+Proof. intros Hn H. destruct (I2_flush pr (conj H Hn)) as [H1 H2]. auto. Qed.
+
+Theorem run_system_no_panic pr s o :
+  p_panic pr = None -> parents_ok pr ->
+  p_panic (run_system pr s o) = None /\ parents_ok (run_system pr s o).
+Proof.
+  intros Hn H.
+  assert (H' : I2 (run_system pr s o)).
+  { apply run_system_inv; [exact I2_respects| | |exact (conj H Hn)].
+    - intros a Ha _. apply I2_flush. exact Ha.
+    - apply run_body_inv; [exact I2_respects|]. intros a s' o' k last. apply I2_sys_body. }
+  destruct H' as [H1 H2]. auto.
+Qed.
+
+(* every state satisfying parents_ok, every order, every oracle, every message kind and receiver
+   condition: the frame does not panic, and parents_ok holds again afterwards *)
+Theorem frame_no_panic pr o :
+  p_panic pr = None -> parents_ok pr -> p_panic (frame pr o) = None.
+Proof. intros Hn H. apply (I2_frame pr o (conj H Hn)). Qed.
+
+Theorem frame_parents_ok pr o :
+  p_panic pr = None -> parents_ok pr -> parents_ok (frame pr o).
+Proof. intros Hn H. apply (I2_frame pr o (conj H Hn)). Qed.
+
+Lemma parents_ok_no_app_insert pr : parents_ok pr -> no_app_insert pr.
+Proof.
+  intros (H1 & H2 & _). split.
+  - intros k cs c Hl Hin. specialize (H1 k cs c Hl Hin). destruct c; simpl in *; auto.
+  - intros x Hx. specialize (H2 x Hx). destruct (x.2); simpl in *; auto.
+Qed.
+
+(* ================================================================================================ *)
+(* Part 3: a peer that ignored a message keeps running                                              *)
+(* ================================================================================================ *)
+
+(* frame is a total function; the flag is the only thing that stops it *)
+Theorem frame_stops_iff_panicked pr o s : p_panic pr = Some s -> frame pr o = pr.
+Proof. apply frame_panicked. Qed.
+
+Theorem frame_runs_unless_panicked pr o :
+  p_panic pr = None ->
+  frame pr o =
+  let pr1 := state_transition (pre_update (pr <| p_out := [] |>) o) in
+  let pr2 := foldl (fun pr s => run_system pr s o) pr1 (p_order pr1) in
+  last_schedule (match p_panic pr2 with Some _ => pr2 | None => flush pr2 end).
+Proof. intros H. unfold frame. rewrite H. reflexivity. Qed.
+
+(* the panic flag is never cleared, and a frame that did not panic is followed by a running one *)
+Theorem panic_is_sticky pr o s : p_panic pr = Some s -> p_panic (frame pr o) = Some s.
+Proof. intros H. rewrite (frame_panicked pr o s H). exact H. Qed.
+
+(* "ignored" means the state is left exactly as it was: messages about unknown entities *)
+Theorem client_ignores_unknown_entity pr k u t v c p :
+  t_u2e pr !! u = None ->
+  client_received pr k (MComp u t v) = pr /\ client_received pr k (MDelete u) = pr /\
+  client_received pr k (MParented u p) = pr /\ client_received pr k (MParented c u) = pr.
+Proof.
+  intros H. simpl. rewrite H. repeat split; try reflexivity. destruct (t_u2e pr !! c); reflexivity.
+Qed.
+Theorem server_ignores_unknown_entity pr k from u t v :
+  t_u2e pr !! u = None -> server_received pr k from (MComp u t v) = pr.
+Proof. intros H. simpl. rewrite H. reflexivity. Qed.
+
+(* ... and deferred applications whose target vanished in the meantime (despawned between frames,
+   or earlier in the same frame by an application system) or whose type is not registered *)
+Theorem apply_comp_ignored_dead pr from e u t v :
+  p_ents pr !! e = None -> apply_cmd pr (CApplyComp from e u t v) = pr.
+Proof.
+  intros H. simpl. unfold apply_component_change. rewrite H.
+  destruct (negb (memN (wire_type t v) (p_registry pr))); [destruct from; reflexivity|].
+  destruct v; (destruct (negb (memN _ (p_registry pr))); destruct from; reflexivity).
+Qed.
+Theorem apply_comp_ignored_unregistered pr from e u t v :
+  memN (wire_type t v) (p_registry pr) = false -> apply_cmd pr (CApplyComp from e u t v) = pr.
+Proof.
+  intros H. simpl. unfold apply_component_change. rewrite H. simpl. destruct from; reflexivity.
+Qed.
+Theorem set_parent_ignored_dead pr c p :
+  alive pr p = false \/ alive pr c = false -> apply_cmd pr (CSetParentCli c p) = pr.
+Proof. intros [H|H]; simpl; rewrite H; [|rewrite orb_true_r]; reflexivity. Qed.
+Theorem set_parent_srv_ignored pr from cu pu :
+  (t_u2e pr !! cu = None \/ t_u2e pr !! pu = None \/
+   exists c p, t_u2e pr !! cu = Some c /\ t_u2e pr !! pu = Some p /\ (alive pr p = false \/ alive pr c = false)) ->
+  apply_cmd pr (CSetParentSrv from cu pu) = pr.
+Proof.
+  intros [H|[H|(c & p & Hc & Hp & [H|H])]]; simpl.
+  - rewrite H. reflexivity.
+  - rewrite H. destruct (t_u2e pr !! cu); reflexivity.
+  - rewrite Hc, Hp, H. reflexivity.
+  - rewrite Hc, Hp, H, orb_true_r. reflexivity.
+Qed.
+Theorem despawn_twice_ignored pr e :
+  p_ents pr !! e = None ->
+  p_ents (apply_cmd pr (CDespawn e)) = p_ents pr /\ p_panic (apply_cmd pr (CDespawn e)) = p_panic pr.
+Proof. intros H. simpl. rewrite delete_notin by exact H. split; reflexivity. Qed.
+
+(* ================================================================================================ *)
+(* Part 2: global theorems                                                                          *)
+(* ================================================================================================ *)
+
+(* ---------- what a conforming application does --------------------------------------------------- *)
+
+(* commands of application systems: despawns only (CAppInsert is the application's own panic) *)
+Definition app_cmd_ok (c : cmd) : bool :=
+  match c with CAppDespawnUuid _ | CAppDespawn _ => true | _ => false end.
+
+(* used: the script entity ids handed out so far, on any peer; marked: those that already carry
+   (or carried) SyncMark.  The model takes the entity's own id as its fresh uuid, which is faithful
+   to Uuid::new_v4 only if ids are globally fresh and every entity is marked at most once. *)
+Definition op_conforming (pr : peer_state) (used marked : list ent) (op : app_op) : bool :=
+  match op with
+  | OSpawn e _ _ => (e <? 4294967296) && negb (memN e used)
+  | OMark e => (e <? 4294967296) && negb (memN e marked)
+  | OSetParent c p => alive pr c && alive pr p && negb (c =? p)
+  | OAppCmd _ c => app_cmd_ok c
+  | _ => true
+  end.
+Definition used_after (used : list ent) (s : step) : list ent :=
+  match s with StApp _ (OSpawn e _ _) => e :: used | _ => used end.
+Definition marked_after (marked : list ent) (s : step) : list ent :=
+  match s with
+  | StApp _ (OSpawn e true _) | StApp _ (OMark e) => e :: marked
+  | _ => marked
+  end.
+Definition step_conforming (g : global) (used marked : list ent) (s : step) : bool :=
+  match s with
+  | StApp p op => match g !! p with Some pr => op_conforming pr used marked op | None => true end
+  | _ => true
+  end.
+Fixpoint conforming_from (g : global) (used marked : list ent) (tr : list step) : bool :=
+  match tr with
+  | [] => true
+  | s :: tr' => step_conforming g used marked s &&
+                conforming_from (gstep g s) (used_after used s) (marked_after marked s) tr'
+  end.
+(* restricts application operations only: frames, orders, oracles, interleavings, registrations,
+   set-ups, joins, reorderings are arbitrary *)
+Definition conforming (n : nat) (tr : list step) : Prop :=
+  conforming_from (init_global n) [] [] tr = true.
+
+(* ---------- global plumbing ------------------------------------------------------------------------ *)
+
+Lemma init_global_lookup n p pr : init_global n !! p = Some pr -> pr = init_peer p [] [] [].
+Proof.
+  unfold init_global.
+  refine (foldl_inv (fun g => forall p pr, g !! p = Some pr -> pr = init_peer p [] [] []) _ _ _ _ _ p pr).
+  - intros p' pr' H. exfalso. exact (lookup_empty_Some (M := gmap peer) p' pr' H).
+  - intros g i _ Hg p' pr' H. cbv beta zeta in H. unfold global in *.
+    destruct (decide (p' = N.of_nat i)) as [->|Hne].
+    + rewrite lookup_insert in H. injection H as <-. reflexivity.
+    + rewrite lookup_insert_ne in H by congruence. apply Hg. exact H.
+Qed.
+
+Definition all_peers (I : peer_state -> Prop) (g : global) : Prop :=
+  forall p pr, g !! p = Some pr -> I pr.
+
+Lemma all_peers_insert (I : peer_state -> Prop) g p pr :
+  all_peers I g -> I pr -> all_peers I (<[p := pr]> g).
+Proof.
+  intros Hg Hpr q pq H. unfold global in *. destruct (decide (q = p)) as [->|Hne].
+  - rewrite lookup_insert in H. injection H as <-. exact Hpr.
+  - rewrite lookup_insert_ne in H by congruence. eapply Hg. exact H.
+Qed.
+
+Definition inbox_push (pd : peer_state) (src : peer) (m : msg) : peer_state :=
+  pd <| n_inbox := <[src := default [] (n_inbox pd !! src) ++ [m]]> (n_inbox pd) |>.
+
+Lemma deliver_out_inv (I : peer_state -> Prop) (M : msg -> Prop) g src out :
+  (forall pd m, I pd -> M m -> I (inbox_push pd src m)) ->
+  (forall d m, (d, m) ∈ out -> M m) ->
+  all_peers I g -> all_peers I (deliver_out g src out).
+Proof.
+  intros Hpush Hout Hg. unfold deliver_out. apply (foldl_inv (all_peers I)); [exact Hg|].
+  intros a [d m] Hin Ha. cbv beta iota.
+  destruct (a !! d) as [pd|] eqn:E; [|exact Ha].
+  apply all_peers_insert; [exact Ha|]. apply Hpush; [eapply Ha; exact E|eapply Hout; exact Hin].
+Qed.
+
+Lemma inbox_all_push (M : msg -> Prop) pd src m :
+  inbox_all M pd -> M m -> inbox_all M (inbox_push pd src m).
+Proof.
+  intros H Hm s l m' Hl Hin. unfold inbox_push in Hl. simpl in Hl.
+  destruct (decide (s = src)) as [->|Hne].
+  - rewrite lookup_insert in Hl. injection Hl as <-. apply elem_of_app in Hin as [Hin|Hin].
+    + destruct (n_inbox pd !! src) as [l0|] eqn:E; simpl in Hin; [|inversion Hin].
+      eapply H; [exact E|exact Hin].
+    + apply elem_of_list_singleton in Hin as ->. exact Hm.
+  - rewrite lookup_insert_ne in Hl by congruence. eapply H; [exact Hl|exact Hin].
+Qed.
+
+Lemma elem_of_take_sub {A} (x : A) n l : x ∈ take n l -> x ∈ l.
+Proof.
+  revert n. induction l as [|y l IH]; intros [|n] H; simpl in H; try (inversion H; fail).
+  apply elem_of_cons in H as [->|H]; [left|right; eapply IH; exact H].
+Qed.
+Lemma elem_of_drop_sub {A} (x : A) n l : x ∈ drop n l -> x ∈ l.
+Proof.
+  revert n. induction l as [|y l IH]; intros [|n] H; simpl in H; try exact H.
+  right. eapply IH. exact H.
+Qed.
+Lemma reorder_sub l i j m : m ∈ reorder l i j -> m ∈ l.
+Proof.
+  unfold reorder. destruct (l !! i) as [m0|] eqn:E; [|auto].
+  destruct (_ && _); [|auto]. intros H.
+  apply elem_of_app in H as [H|H]; [eapply elem_of_take_sub; exact H|].
+  apply elem_of_cons in H as [->|H]; [eapply elem_of_list_lookup_2; exact E|].
+  apply elem_of_app in H as [H|H].
+  - eapply elem_of_drop_sub. eapply elem_of_take_sub. exact H.
+  - eapply elem_of_drop_sub. exact H.
+Qed.
+
+Lemma inbox_all_reorder (M : msg -> Prop) pd src l i j :
+  n_inbox pd !! src = Some l -> inbox_all M pd ->
+  inbox_all M (pd <| n_inbox := <[src := reorder l i j]> (n_inbox pd) |>).
+Proof.
+  intros Hl H s l' m Hl' Hin. simpl in Hl'. destruct (decide (s = src)) as [->|Hne].
+  - rewrite lookup_insert in Hl'. injection Hl' as <-. apply reorder_sub in Hin.
+    eapply H; [exact Hl|exact Hin].
+  - rewrite lookup_insert_ne in Hl' by congruence. eapply H; [exact Hl'|exact Hin].
+Qed.
+
+(* GI is indifferent to what happens to the inboxes as long as the messages stay admissible *)
+Lemma GI_inbox b (P : cmd -> Prop) (M : msg -> Prop) pd (ib : gmap peer (list msg)) :
+  GI b P M pd -> inbox_all M (pd <| n_inbox := ib |>) -> GI b P M (pd <| n_inbox := ib |>).
+Proof. intros (H1 & H2 & _ & H4) H3. repeat split; [exact H1|exact H2|exact H3|exact H4]. Qed.
+
+(* a step that only touches entities, the panic flag and fields outside `rest` *)
+Lemma GI_rest b (P : cmd -> Prop) (M : msg -> Prop) pr pr' :
+  rest pr' = rest pr -> (b = true -> ents_all mark_ok pr') -> GI b P M pr -> GI b P M pr'.
+Proof.
+  intros H Hm (H1 & H2 & H3 & H4). apply rest_inv in H as (Ha & Hu & Hi & Hn & Hq).
+  repeat split.
+  - eapply cmdq_all_ext; [exact Hq|exact H1].
+  - eapply app_all_ext; [exact Ha|exact H2].
+  - eapply inbox_all_ext; [exact Hi|exact H3].
+  - unfold GS in H4 |- *. destruct b; [|exact I].
+    unfold u2e_ok. rewrite Hu, Hn. eapply u2e_ok_ents; [|exact H4]. apply Hm. reflexivity.
+Qed.
+
+Lemma mark_ok_blind : hier_blind mark_ok.
+Proof. intros e en p cs H. split; exact H. Qed.
+
+Lemma parents_ok_marks pr : parents_ok pr -> ents_all mark_ok pr.
+Proof. intros (_ & _ & _ & (_ & _ & _ & H)). exact H. Qed.
+
+Lemma ents_all_insert (Q : ent -> entity -> Prop) pr e en :
+  Q e en -> ents_all Q pr -> ents_all Q (pr <| p_ents := <[e := en]> (p_ents pr) |>).
+Proof.
+  intros Hen H x en' Hl. simpl in Hl. destruct (decide (x = e)) as [->|Hne].
+  - rewrite lookup_insert in Hl. injection Hl as <-. exact Hen.
+  - rewrite lookup_insert_ne in Hl by congruence. apply H. exact Hl.
+Qed.
+Lemma ents_all_delete (Q : ent -> entity -> Prop) pr e :
+  ents_all Q pr -> ents_all Q (pr <| p_ents := delete e (p_ents pr) |>).
+Proof. intros H x en Hl. simpl in Hl. apply lookup_delete_Some in Hl as [_ Hl]. apply H. exact Hl. Qed.
+
+Lemma app_cmd_ok_cmd_ok c : app_cmd_ok c = true -> cmd_ok c.
+Proof. destruct c; simpl; intros H; try discriminate; exact I. Qed.
+
+Lemma app_all_snoc (P : cmd -> Prop) pr n c :
+  P c -> app_all P pr -> app_all P (pr <| p_app_cmds := p_app_cmds pr ++ [(n, c)] |>).
+Proof.
+  intros Hc H x Hx. simpl in Hx. apply elem_of_app in Hx as [Hx|Hx]; [apply H; exact Hx|].
+  apply elem_of_list_singleton in Hx as ->. exact Hc.
+Qed.
+
+(* a conforming application operation keeps parents_ok and does not panic *)
+Lemma I2_app_step pr used marked op :
+  I2 pr -> op_conforming pr used marked op = true -> I2 (app_step pr op).
+Proof.
+  intros [H Hn] Hop. pose proof (parents_ok_marks pr H) as Hm.
+  destruct op; simpl in Hop |- *.
+  - apply andb_true_iff in Hop as [He _]. apply N.ltb_lt in He.
+    split; [|exact Hn]. apply (GI_rest _ _ _ pr); [reflexivity| |exact H].
+    intros _. apply ents_all_insert; [|exact Hm]. intros _. exact He.
+  - split; [|exact Hn]. apply (GI_rest _ _ _ pr); [reflexivity| |exact H]. intros _. apply ents_all_delete. exact Hm.
+  - apply andb_true_iff in Hop as [Hop _]. apply N.ltb_lt in Hop.
+    split; [|rewrite upd_ent_panic; exact Hn].
+    apply (GI_rest _ _ _ pr); [apply upd_ent_rest| |exact H]. intros _.
+    apply upd_ent_ents_all; [|exact Hm]. intros en _ _. exact Hop.
+  - split; [|rewrite upd_ent_panic; exact Hn].
+    apply (GI_rest _ _ _ pr); [apply upd_ent_rest| |exact H]. intros _.
+    apply upd_ent_ents_all; [|exact Hm]. intros en Hen. unfold mark_ok, put_comp in *.
+    destruct (en_comps en !! t); exact Hen.
+  - split; [|rewrite upd_ent_panic; exact Hn].
+    apply (GI_rest _ _ _ pr); [apply upd_ent_rest| |exact H]. intros _.
+    apply upd_ent_ents_all; [|exact Hm]. intros en Hen. exact Hen.
+  - apply andb_true_iff in Hop as [Hop Hcp]. apply andb_true_iff in Hop as [Hc Hp].
+    rewrite Hc. split.
+    + apply (GI_rest _ _ _ pr); [apply add_child_rest| |exact H]. intros _.
+      apply add_child_ents_all; [exact mark_ok_blind|exact Hm].
+    + rewrite (add_child_panic pr p c Hn). unfold add_child_outcome. rewrite Hp. simpl.
+      rewrite N.eqb_sym. apply negb_true_iff in Hcp. rewrite Hcp. reflexivity.
+  - apply (I2_core pr); [apply insert_asset_core|split; assumption].
+  - apply (I2_core pr); [|split; [exact H|exact Hn]]. reflexivity.
+  - split; [|exact Hn]. destruct H as (H1 & H2 & H3 & H4).
+    split; [exact H1|split; [|split; [exact H3|exact H4]]].
+    apply app_all_snoc; [apply app_cmd_ok_cmd_ok; exact Hop|exact H2].
+  - apply (I2_core pr); [|split; [exact H|exact Hn]]. destruct host; reflexivity.
+  - apply (I2_core pr); [|split; [exact H|exact Hn]]. reflexivity.
+  - apply (I2_core pr); [|split; [exact H|exact Hn]]. reflexivity.
+  - apply (I2_core pr); [|split; [exact H|exact Hn]]. reflexivity.
+  - apply (I2_core pr); [|split; [exact H|exact Hn]]. reflexivity.
+  - apply (I2_core pr); [|split; [exact H|exact Hn]]. reflexivity.
+Qed.
+
+Lemma I2_init p : I2 (init_peer p [] [] []).
+Proof.
+  split; [|reflexivity]. apply parents_ok_unfold. simpl.
+  split; [intros k cs c Hl; rewrite lookup_empty in Hl; discriminate|].
+  split; [intros x Hx; inversion Hx|].
+  split; [intros s l m Hl; rewrite lookup_empty in Hl; discriminate|].
+  split; [intros u1 u2 e Hl; rewrite lookup_empty in Hl; discriminate|].
+  split; [intros u e Hl; rewrite lookup_empty in Hl; discriminate|].
+  split; [lia|].
+  intros e en Hl. rewrite lookup_empty in Hl. discriminate.
+Qed.
+
+(* ---------- theorem A: peers panic only if somebody emits a link of an entity to itself ------------ *)
+
+(* along the run, no frame puts a message MParented u u into its outbox *)
+Fixpoint links_ok_from (g : global) (tr : list step) : Prop :=
+  match tr with
+  | [] => True
+  | s :: tr' =>
+      match s with
+      | StFrame p o => match g !! p with Some pr => out_all msg_ok (frame pr o) | None => True end
+      | _ => True
+      end /\ links_ok_from (gstep g s) tr'
+  end.
+Definition no_self_link_sent (n : nat) (tr : list step) : Prop := links_ok_from (init_global n) tr.
+
+Lemma I2_inbox_push pd src m : I2 pd -> msg_ok m -> I2 (inbox_push pd src m).
+Proof.
+  intros [H Hn] Hm. split; [|exact Hn]. apply GI_inbox; [exact H|].
+  apply inbox_all_push; [apply H|exact Hm].
+Qed.
+
+Lemma gstep_I2 g used marked s :
+  all_peers I2 g -> step_conforming g used marked s = true ->
+  match s with
+  | StFrame p o => match g !! p with Some pr => out_all msg_ok (frame pr o) | None => True end
+  | _ => True
+  end ->
+  all_peers I2 (gstep g s).
+Proof.
+  intros Hg Hc Hl. destruct s as [p op|p o|dst src i j]; simpl in *.
+  - destruct (g !! p) as [pr|] eqn:E; [|exact Hg].
+    apply all_peers_insert; [exact Hg|]. eapply I2_app_step; [eapply Hg; exact E|exact Hc].
+  - destruct (g !! p) as [pr|] eqn:E; [|exact Hg].
+    apply (deliver_out_inv I2 msg_ok).
+    + intros pd m. apply I2_inbox_push.
+    + exact Hl.
+    + apply all_peers_insert; [exact Hg|]. apply I2_frame. eapply Hg. exact E.
+  - destruct (g !! dst) as [pd|] eqn:E; [|exact Hg].
+    destruct (n_inbox pd !! src) as [l|] eqn:El; [|exact Hg].
+    apply all_peers_insert; [exact Hg|].
+    destruct (Hg dst pd E) as [H Hn]. split; [|exact Hn].
+    apply GI_inbox; [exact H|]. apply inbox_all_reorder; [exact El|apply H].
+Qed.
+
+Lemma grun_I2 tr : forall g used marked,
+  all_peers I2 g -> conforming_from g used marked tr = true -> links_ok_from g tr ->
+  all_peers I2 (grun g tr).
+Proof.
+  induction tr as [|s tr IH]; intros g used marked Hg Hc Hl; simpl; [exact Hg|].
+  simpl in Hc. apply andb_true_iff in Hc as [Hc1 Hc2]. destruct Hl as [Hl1 Hl2].
+  apply (IH (gstep g s) (used_after used s) (marked_after marked s)); [|exact Hc2|exact Hl2].
+  eapply gstep_I2; eassumption.
+Qed.
+
+Lemma init_I2 n : all_peers I2 (init_global n).
+Proof. intros p pr H. apply init_global_lookup in H as ->. apply I2_init. Qed.
+
+(* Theorem A. All traces of a conforming application, all frames / orders / oracles / reorderings /
+   set-ups: as long as no peer emits MParented u u, no peer ever panics (and parents_ok is an
+   invariant of every peer). *)
+Theorem C08_no_panic_modulo_self_links n tr :
+  conforming n tr -> no_self_link_sent n tr ->
+  forall p pr, grun (init_global n) tr !! p = Some pr -> p_panic pr = None /\ parents_ok pr.
+Proof.
+  intros Hc Hl p pr H.
+  destruct (grun_I2 tr (init_global n) [] [] (init_I2 n) Hc Hl p pr H) as [H1 H2]. auto.
+Qed.
+
+(* ---------- theorem B: without hierarchy operations, nobody ever panics ------------------------------ *)
+
+Definition no_hierarchy (tr : list step) : Prop :=
+  Forall (fun s => match s with StApp _ (OSetParent _ _) => False | _ => True end) tr.
+
+(* invariant of every peer: no queued hierarchy / insert command, no parent link in flight, in the
+   outbox or on any entity *)
+Definition I3 (pr : peer_state) : Prop :=
+  GI false no_hier_cmd not_parented pr /\ ents_all no_parent pr /\ out_all not_parented pr /\
+  p_panic pr = None.
+
+Lemma benign_no_hier c : benign c -> no_hier_cmd c.
+Proof. destruct c; simpl; auto. destruct m; simpl; auto. Qed.
+
+Lemma no_hier_cmd_no_panic pr c : no_hier_cmd c -> cmd_panics pr c = None.
+Proof. destruct c; simpl; intros H; try reflexivity; contradiction. Qed.
+
+Lemma I3_respects : respects_core I3.
+Proof.
+  intros pr pr' H Ho (H1 & H2 & H3 & H4). split; [eapply GI_core; eassumption|].
+  split; [eapply ents_all_ext; [apply (core_ents _ _ H)|exact H2]|].
+  split; [eapply out_all_ext; [exact Ho|exact H3]|]. rewrite (core_panic _ _ H). exact H4.
+Qed.
+
+Lemma no_parent_put_comp e en now t v : no_parent e en -> no_parent e (put_comp now t v en).
+Proof. unfold no_parent, put_comp. destruct (en_comps en !! t); auto. Qed.
+
+Lemma I3_apply_cmd pr c : I3 pr -> no_hier_cmd c -> p_panic pr = None -> I3 (apply_cmd pr c).
+Proof.
+  intros (H1 & H2 & H3 & _) Hc Hn.
+  split; [apply GI_apply_cmd; exact H1|].
+  split; [|split; [apply apply_cmd_out_np; assumption|]].
+  - apply apply_cmd_ents_all; [| | | |exact H2].
+    + intros e u t. reflexivity.
+    + intros e en now t v. apply no_parent_put_comp.
+    + intros e en u t Hen. exact Hen.
+    + intros Hs. destruct c; simpl in Hs, Hc; contradiction.
+  - rewrite (apply_cmd_panic pr c Hn). apply no_hier_cmd_no_panic. exact Hc.
+Qed.
+
+Lemma I3_flush pr : I3 pr -> I3 (flush pr).
+Proof.
+  apply (flush_inv I3 no_hier_cmd).
+  - intros a [Ha _]. apply Ha.
+  - intros a k (Ha & H2 & H3 & H4). split; [apply GI_delete; exact Ha|]. auto.
+  - apply I3_apply_cmd.
+Qed.
+
+Lemma I3_sys_body pr s o k last : I3 pr -> I3 (sys_body pr s o k last).
+Proof.
+  intros (H1 & H2 & H3 & H4).
+  destruct (pe_inv _ _ (sys_body_pe pr s o k last)) as [Hp He].
+  split; [|split; [eapply ents_all_ext; [exact He|exact H2]|split; [|rewrite Hp; exact H4]]].
+  - apply sys_body_GI; [exact benign_no_hier| | |exact H1].
+    + intros from cu pu Hm. contradiction.
+    + intros a cu pu ce pe' _ Hm. contradiction.
+  - apply sys_body_out_np; assumption.
+Qed.
+
+Lemma I3_frame pr o : I3 pr -> I3 (frame pr o).
+Proof.
+  apply frame_inv.
+  - exact I3_respects.
+  - intros a (H1 & H2 & H3 & H4). split; [eapply GI_core; [|exact H1]; reflexivity|].
+    split; [exact H2|split; [|exact H4]]. intros d m Hin. simpl in Hin. inversion Hin.
+  - intros a h (H1 & H2 & H3 & H4).
+    split; [eapply GI_core; [apply send_up_core|exact H1]|].
+    split; [eapply ents_all_ext; [apply (core_ents _ _ (send_up_core _ _))|exact H2]|].
+    split; [apply send_up_out_all; [exact H3|exact I]|].
+    rewrite (core_panic _ _ (send_up_core _ _)). exact H4.
+  - intros a Ha _. apply I3_flush. exact Ha.
+  - intros a s' o' k last. apply I3_sys_body.
+Qed.
+
+Lemma app_cmd_ok_no_hier c : app_cmd_ok c = true -> no_hier_cmd c.
+Proof. destruct c; simpl; intros H; try discriminate; exact I. Qed.
+
+Lemma foldl_put_comp_no_parent e now comps en :
+  no_parent e en -> no_parent e (foldl (fun en '(t, v) => put_comp now t v en) en comps).
+Proof.
+  intros H. apply (foldl_inv (no_parent e)); [exact H|].
+  intros a [t v] _ Ha. apply no_parent_put_comp. exact Ha.
+Qed.
+
+(* GI without the uuid conditions does not look at entities *)
+Lemma GI_false_rest (P : cmd -> Prop) (M : msg -> Prop) pr pr' :
+  rest pr' = rest pr -> GI false P M pr -> GI false P M pr'.
+Proof. intros H. apply GI_rest; [exact H|discriminate]. Qed.
+
+Lemma I3_app_step pr used marked op :
+  I3 pr -> op_conforming pr used marked op = true ->
+  match op with OSetParent _ _ => False | _ => True end -> I3 (app_step pr op).
+Proof.
+  intros (H1 & H2 & H3 & Hn) Hop Hnh.
+  destruct op; simpl in Hop, Hnh |- *; try contradiction.
+  - split; [apply (GI_false_rest _ _ pr); [reflexivity|exact H1]|].
+    split; [|split; [exact H3|exact Hn]].
+    apply ents_all_insert; [|exact H2]. apply foldl_put_comp_no_parent. reflexivity.
+  - split; [apply (GI_false_rest _ _ pr); [reflexivity|exact H1]|].
+    split; [apply ents_all_delete; exact H2|split; [exact H3|exact Hn]].
+  - split; [apply (GI_false_rest _ _ pr); [apply upd_ent_rest|exact H1]|].
+    split; [apply upd_ent_ents_all; [intros en Hen; exact Hen|exact H2]|].
+    split; [eapply out_all_ext; [apply upd_ent_out|exact H3]|rewrite upd_ent_panic; exact Hn].
+  - split; [apply (GI_false_rest _ _ pr); [apply upd_ent_rest|exact H1]|].
+    split; [apply upd_ent_ents_all; [intros en; apply no_parent_put_comp|exact H2]|].
+    split; [eapply out_all_ext; [apply upd_ent_out|exact H3]|rewrite upd_ent_panic; exact Hn].
+  - split; [apply (GI_false_rest _ _ pr); [apply upd_ent_rest|exact H1]|].
+    split; [apply upd_ent_ents_all; [intros en Hen; exact Hen|exact H2]|].
+    split; [eapply out_all_ext; [apply upd_ent_out|exact H3]|rewrite upd_ent_panic; exact Hn].
+  - apply (I3_respects pr); [apply insert_asset_core|reflexivity|]. repeat split; assumption || apply H1.
+  - apply (I3_respects pr); [reflexivity|reflexivity|]. repeat split; assumption || apply H1.
+  - split; [|split; [exact H2|split; [exact H3|exact Hn]]].
+    destruct H1 as (G1 & G2 & G3 & G4).
+    split; [exact G1|split; [|split; [exact G3|exact G4]]].
+    apply app_all_snoc; [apply app_cmd_ok_no_hier; exact Hop|exact G2].
+  - apply (I3_respects pr); [destruct host; reflexivity|destruct host; reflexivity|].
+    repeat split; assumption || apply H1.
+  - apply (I3_respects pr); [reflexivity|reflexivity|]. repeat split; assumption || apply H1.
+  - apply (I3_respects pr); [reflexivity|reflexivity|]. repeat split; assumption || apply H1.
+  - apply (I3_respects pr); [reflexivity|reflexivity|]. repeat split; assumption || apply H1.
+  - apply (I3_respects pr); [reflexivity|reflexivity|]. repeat split; assumption || apply H1.
+  - apply (I3_respects pr); [reflexivity|reflexivity|]. repeat split; assumption || apply H1.
+Qed.
+
+Lemma I3_inbox_push pd src m : I3 pd -> not_parented m -> I3 (inbox_push pd src m).
+Proof.
+  intros (H1 & H2 & H3 & H4) Hm.
+  split; [|split; [exact H2|split; [exact H3|exact H4]]].
+  apply GI_inbox; [exact H1|]. apply inbox_all_push; [apply H1|exact Hm].
+Qed.
+
+Lemma I3_init p : I3 (init_peer p [] [] []).
+Proof.
+  split; [|split; [|split; [|reflexivity]]].
+  - split; [intros k cs c Hl; simpl in Hl; rewrite lookup_empty in Hl; discriminate|].
+    split; [intros x Hx; inversion Hx|].
+    split; [intros s l m Hl; simpl in Hl; rewrite lookup_empty in Hl; discriminate|exact I].
+  - intros e en Hl. simpl in Hl. rewrite lookup_empty in Hl. discriminate.
+  - intros d m Hin. inversion Hin.
+Qed.
+
+Lemma gstep_I3 g used marked s :
+  all_peers I3 g -> step_conforming g used marked s = true ->
+  match s with StApp _ (OSetParent _ _) => False | _ => True end ->
+  all_peers I3 (gstep g s).
+Proof.
+  intros Hg Hc Hnh. destruct s as [p op|p o|dst src i j]; simpl in *.
+  - destruct (g !! p) as [pr|] eqn:E; [|exact Hg].
+    apply all_peers_insert; [exact Hg|]. eapply I3_app_step; [eapply Hg; exact E|exact Hc|exact Hnh].
+  - destruct (g !! p) as [pr|] eqn:E; [|exact Hg].
+    pose proof (I3_frame pr o (Hg p pr E)) as Hf.
+    apply (deliver_out_inv I3 not_parented).
+    + intros pd m. apply I3_inbox_push.
+    + apply Hf.
+    + apply all_peers_insert; [exact Hg|exact Hf].
+  - destruct (g !! dst) as [pd|] eqn:E; [|exact Hg].
+    destruct (n_inbox pd !! src) as [l|] eqn:El; [|exact Hg].
+    apply all_peers_insert; [exact Hg|].
+    destruct (Hg dst pd E) as (H1 & H2 & H3 & H4).
+    split; [|split; [exact H2|split; [exact H3|exact H4]]].
+    apply GI_inbox; [exact H1|]. apply inbox_all_reorder; [exact El|apply H1].
+Qed.
+
+Lemma grun_I3 tr : forall g used marked,
+  all_peers I3 g -> conforming_from g used marked tr = true -> no_hierarchy tr ->
+  all_peers I3 (grun g tr).
+Proof.
+  induction tr as [|s tr IH]; intros g used marked Hg Hc Hnh; simpl; [exact Hg|].
+  simpl in Hc. apply andb_true_iff in Hc as [Hc1 Hc2].
+  inversion Hnh as [|? ? Hs Htr]; subst.
+  apply (IH (gstep g s) (used_after used s) (marked_after marked s)); [|exact Hc2|exact Htr].
+  eapply gstep_I3; eassumption.
+Qed.
+
+(* no OSetParent in the trace: no MParented is ever sent, queued or in flight, no entity ever has a
+   Parent, on any peer, at any point of any run *)
+Lemma no_hierarchy_no_parented n tr :
+  conforming n tr -> no_hierarchy tr ->
+  forall p pr, grun (init_global n) tr !! p = Some pr ->
+    (forall d m, (d, m) ∈ p_out pr -> not_parented m) /\
+    (forall s l m, n_inbox pr !! s = Some l -> m ∈ l -> not_parented m) /\
+    (forall e en, p_ents pr !! e = Some en -> en_parent en = None).
+Proof.
+  intros Hc Hnh p pr H.
+  assert (Hi : all_peers I3 (init_global n)).
+  { intros q pq Hq. apply init_global_lookup in Hq as ->. apply I3_init. }
+  destruct (grun_I3 tr (init_global n) [] [] Hi Hc Hnh p pr H) as ((_ & _ & H3 & _) & H2 & H4 & _).
+  split; [exact H4|split; [exact H3|exact H2]].
+Qed.
+
+(* Theorem B. C08 for all traces without hierarchy operations: every number of peers, every
+   conforming application, all frames, orders, oracles, interleavings, reorderings, registrations,
+   set-ups, joins, promotions. *)
+Theorem C08_no_panic_no_hierarchy n tr :
+  conforming n tr -> no_hierarchy tr ->
+  forall p pr, grun (init_global n) tr !! p = Some pr -> p_panic pr = None.
+Proof.
+  intros Hc Hnh p pr H.
+  assert (Hi : all_peers I3 (init_global n)).
+  { intros q pq Hq. apply init_global_lookup in Hq as ->. apply I3_init. }
+  apply (grun_I3 tr (init_global n) [] [] Hi Hc Hnh p pr H).
+Qed.
+
+(* ---------- boolean check of no_self_link_sent (for examples) ---------------------------------------- *)
+
+Definition msg_okb (m : msg) : bool := match m with MParented c p => negb (c =? p) | _ => true end.
+Definition out_okb (pr : peer_state) : bool := forallb (fun x : peer * msg => msg_okb x.2) (p_out pr).
+Fixpoint links_okb_from (g : global) (tr : list step) : bool :=
+  match tr with
+  | [] => true
+  | s :: tr' =>
+      match s with
+      | StFrame p o => match g !! p with Some pr => out_okb (frame pr o) | None => true end
+      | _ => true
+      end && links_okb_from (gstep g s) tr'
+  end.
+
+Lemma msg_okb_spec m : msg_okb m = true -> msg_ok m.
+Proof.
+  destruct m; simpl; try (intros _; exact I). intros H Heq. subst p.
+  rewrite N.eqb_refl in H. discriminate.
+Qed.
+Lemma out_okb_spec pr : out_okb pr = true -> out_all msg_ok pr.
+Proof.
+  unfold out_okb. intros H d m Hin. rewrite forallb_forall in H.
+  apply msg_okb_spec. apply (H (d, m)). apply elem_of_list_In. exact Hin.
+Qed.
+Lemma links_okb_spec tr : forall g, links_okb_from g tr = true -> links_ok_from g tr.
+Proof.
+  induction tr as [|s tr IH]; intros g H; simpl; [exact I|].
+  simpl in H. apply andb_true_iff in H as [H1 H2]. split; [|apply IH; exact H2].
+  destruct s as [p op|p o|dst src i j]; try exact I.
+  destruct (g !! p) as [pr|]; [|exact I]. apply out_okb_spec. exact H1.
+Qed.
+
+(* ---------- examples: the premises are satisfiable, and necessary ---------------------------------- *)
+
+Definition host_order : list sysid :=
+  [SSrvConnected; SSrvRemoved; SSrvCreated; SDetect T_A; SSrvParented; SSrvReact; SApp 7; SSrvPoll; SSync].
+Definition cli_order : list sysid :=
+  [SCliConnecting; SCliVerify; SCliRemoved; SCliCreated; SDetect T_A; SCliParented; SCliReact; SCliPoll; SSync].
+Definition fh (poll : list peer) : frame_oracle := Build_frame_oracle [] [1] None poll 0 [].
+Definition fc (n : nat) : frame_oracle := Build_frame_oracle [] [] (Some RConnected) [] n [].
+Definition E0 : N := 4294967296.
+
+(* host 0, client 1: two spawns, a parent link, a snapshot; then the client despawns its replica
+   of 5 while a component update (of a type only the host registered) and a second parent link
+   for it are in flight; an application system of the host despawns 6 through Commands *)
+Definition demo : list step :=
+  [StApp 0 (OSetup true 0); StApp 1 (OSetup false 0);
+   StApp 0 (OSetOrder host_order); StApp 1 (OSetOrder cli_order);
+   StApp 0 (OReg T_A); StApp 0 (OSetRegistry [T_A]);
+   StFrame 0 (fh []); StFrame 0 (fh []);
+   StFrame 1 (fc 0); StFrame 1 (fc 0); StFrame 1 (fc 0);
+   StApp 0 (OSpawn 5 true []); StApp 0 (OSpawn 6 true [(T_A, VN 1)]);
+   StFrame 0 (fh [1]);
+   StApp 0 (OSetParent 5 6);
+   StFrame 0 (fh []);
+   StFrame 1 (fc 10);
+   StApp 1 (ODespawn E0);
+   StApp 0 (OWrite 5 T_A (VN 3)); StApp 0 (OSetParent 5 6);
+   StApp 0 (OAppCmd 7 (CAppDespawnUuid 6));
+   StFrame 0 (fh []);
+   StReorder 1 0 1 0;
+   StFrame 1 (fc 10);
+   StFrame 0 (fh [1; 1; 1]); StFrame 1 (fc 10)].
+
+Example demo_conforming : conforming 2 demo.
+Proof. vm_compute. reflexivity. Qed.
+Example demo_no_self_link : no_self_link_sent 2 demo.
+Proof. apply links_okb_spec. vm_compute. reflexivity. Qed.
+(* the client really held the link, and really got messages about the entity it despawned *)
+Example demo_link_replicated :
+  (fun pr => (fun '(e, en) => (e, en_sync en, fst <$> en_parent en)) <$> entities pr)
+    <$> (grun (init_global 2) (take 17 demo) !! 1)
+  = Some [(E0 + 1, Some 6, None); (E0, Some 5, Some (E0 + 1))].
+Proof. vm_compute. reflexivity. Qed.
+Example demo_late_messages :
+  (fun pr => inbox_of pr 0) <$> (grun (init_global 2) (take 23 demo) !! 1)
+  = Some [MParented 5 6; MComp 5 T_A (VN 3)].
+Proof. vm_compute. reflexivity. Qed.
+Example demo_no_panic :
+  p_panic <$> (grun (init_global 2) demo !! 0) = Some None /\
+  p_panic <$> (grun (init_global 2) demo !! 1) = Some None.
+Proof. vm_compute. split; reflexivity. Qed.
+(* ... as theorem A predicts *)
+Example demo_by_theorem p pr : grun (init_global 2) demo !! p = Some pr -> p_panic pr = None.
+Proof.
+  intros H. apply (C08_no_panic_modulo_self_links 2 demo demo_conforming demo_no_self_link p pr H).
+Qed.
+
+(* theorem B is not vacuous either: the same session without the two OSetParent *)
+Definition demo_flat : list step :=
+  List.filter (fun s => match s with StApp _ (OSetParent _ _) => false | _ => true end) demo.
+Example demo_flat_conforming : conforming 2 demo_flat /\ no_hierarchy demo_flat.
+Proof. split; [vm_compute; reflexivity|]. vm_compute. repeat constructor. Qed.
+
+(* the self-parent message really panics the model: the inbox clause of parents_ok is necessary.
+   A connected client with nothing queued, whose host link carries MSpawn 7; MParented 7 7. *)
+Definition self_parent_state : peer_state :=
+  init_peer 1 [] [] [SCliPoll; SSync]
+    <| n_setup := true |> <| n_cli_transport := Some (0, 1) |> <| s_client := CliConnected |>
+    <| n_inbox := {[ 0 := [MSpawn 7; MParented 7 7] ]} |>.
+
+Example self_parent_panics :
+  p_panic self_parent_state = None /\ no_app_insert self_parent_state /\
+  p_panic (frame self_parent_state (fc 2)) = Some PSetParentSelf.
+Proof.
+  split; [reflexivity|]. split; [|vm_compute; reflexivity].
+  split.
+  - intros k cs c Hl. simpl in Hl. rewrite lookup_empty in Hl. discriminate.
+  - intros x Hx. simpl in Hx. inversion Hx.
+Qed.
+
+(* every other clause of parents_ok holds in that state *)
+Example self_parent_state_rest :
+  cmdq_all cmd_ok self_parent_state /\ app_all cmd_ok self_parent_state /\ u2e_ok self_parent_state.
+Proof.
+  split; [intros k cs c Hl; simpl in Hl; rewrite lookup_empty in Hl; discriminate|].
+  split; [intros x Hx; simpl in Hx; inversion Hx|].
+  unfold u2e_ok, u2e_ok_. simpl.
+  split; [intros u1 u2 e Hl; rewrite lookup_empty in Hl; discriminate|].
+  split; [intros u e Hl; rewrite lookup_empty in Hl; discriminate|].
+  split; [unfold SCRIPT_LIMIT; lia|].
+  intros e en Hl. rewrite lookup_empty in Hl. discriminate.
+Qed.
+
+(* so is injectivity of uuid_to_entity: two uuids for one live entity, a link between them *)
+Definition alias_state : peer_state :=
+  init_peer 1 [] [] [SCliPoll; SSync]
+    <| n_setup := true |> <| n_cli_transport := Some (0, 1) |> <| s_client := CliConnected |>
+    <| p_ents := {[ E0 := new_entity <| en_sync := Some 7 |> ]} |> <| p_next_ent := E0 + 1 |>
+    <| t_u2e := {[ 7 := E0; 8 := E0 ]} |>
+    <| n_inbox := {[ 0 := [MParented 7 8] ]} |>.
+Example alias_panics :
+  p_panic alias_state = None /\ inbox_all msg_ok alias_state /\
+  p_panic (frame alias_state (fc 1)) = Some PSetParentSelf.
+Proof.
+  split; [reflexivity|]. split; [|vm_compute; reflexivity].
+  intros s l m Hl Hin. simpl in Hl.
+  destruct (decide (s = 0)) as [->|Hne].
+  - rewrite lookup_singleton in Hl. injection Hl as <-.
+    apply elem_of_list_singleton in Hin as ->. simpl. discriminate.
+  - rewrite lookup_singleton_ne in Hl by congruence. discriminate.
+Qed.
+
+(* and the application's insert command is the application's own panic *)
+Definition app_insert_state : peer_state :=
+  init_peer 0 [] [] [SApp 1; SSync] <| p_app_cmds := [(1, CAppInsert 3 T_A (VN 0))] |>.
+Example app_insert_panics :
+  p_panic (frame app_insert_state (fh [])) = Some PInsertDead.
+Proof. vm_compute. reflexivity. Qed.
+
+(* ---------- the full statement, and why it needs a condition on the session --------------------------- *)
+
+Definition C08_no_panic_statement : Prop :=
+  forall n tr, conforming n tr ->
+  forall p pr, grun (init_global n) tr !! p = Some pr -> p_panic pr = None.
+
+(* With *unconstrained* oracles the statement is false in the model: nothing ties fo_clients /
+   fo_srv_poll to the set-ups, so three peers can all be set up as hosts and each be told by its
+   renet oracle that the other two are its clients.  Peer 0's spawn of 5 then reaches peer 2 twice
+   (directly and relayed by peer 1); the host handler of MSpawn has no duplicate check, so peer 2
+   holds two live replicas with uuid 5; its application links them (both alive, distinct: a
+   conforming operation) and entity_parented_on_server emits MParented 5 5; peer 0 resolves both
+   ends to the same entity and add_child panics.  No real renet session produces these oracles. *)
+Definition mesh_order : list sysid := [SSrvConnected; SSrvCreated; SSrvParented; SSrvPoll; SSync].
+Definition fm (cl poll : list peer) : frame_oracle := Build_frame_oracle [] cl None poll 0 [].
+Definition three_hosts : list step :=
+  [StApp 0 (OSetup true 0); StApp 1 (OSetup true 0); StApp 2 (OSetup true 0);
+   StApp 0 (OSetOrder mesh_order); StApp 1 (OSetOrder mesh_order); StApp 2 (OSetOrder mesh_order);
+   StFrame 0 (fm [1; 2] []); StFrame 1 (fm [0; 2] []); StFrame 2 (fm [0; 1] []);
+   StFrame 0 (fm [1; 2] []); StFrame 1 (fm [0; 2] []); StFrame 2 (fm [0; 1] []);
+   StApp 0 (OSpawn 5 true []);
+   StFrame 0 (fm [1; 2] []);
+   StFrame 1 (fm [0; 2] [0]);
+   StFrame 2 (fm [0; 1] [0; 1]);
+   StApp 2 (OSetParent E0 (E0 + 1));
+   StFrame 2 (fm [0; 1] []);
+   StFrame 0 (fm [1; 2] [2; 2])].
+
+Theorem C08_refuted_with_arbitrary_oracles :
+  exists n tr p pr, conforming n tr /\ grun (init_global n) tr !! p = Some pr /\
+                    p_panic pr = Some PSetParentSelf.
+Proof.
+  exists 3%nat, three_hosts, 0.
+  destruct (grun (init_global 3) three_hosts !! 0) as [pr|] eqn:E; [|vm_compute in E; discriminate].
+  exists pr. split; [vm_compute; reflexivity|]. split; [exact E|].
+  assert (H : p_panic <$> (grun (init_global 3) three_hosts !! 0) = Some (Some PSetParentSelf))
+    by (vm_compute; reflexivity).
+  rewrite E in H. simpl in H. injection H as H. exact H.
+Qed.
+
+Corollary C08_no_panic_statement_refuted : ~ C08_no_panic_statement.
+Proof.
+  intros H. destruct C08_refuted_with_arbitrary_oracles as (n & tr & p & pr & Hc & Hr & Hp).
+  rewrite (H n tr Hc p pr Hr) in Hp. discriminate.
+Qed.
+
+(* the witness violates exactly the premise of theorem A *)
+Example three_hosts_send_self_link : links_okb_from (init_global 3) three_hosts = false.
+Proof. vm_compute. reflexivity. Qed.
+
+(* the smallest such witness: one host whose renet oracle lists the host itself as its client *)
+Definition self_client : list step :=
+  [StApp 0 (OSetup true 0); StApp 0 (OSetOrder mesh_order);
+   StFrame 0 (fm [0] []); StFrame 0 (fm [0] []);
+   StApp 0 (OSpawn 5 true []);
+   StFrame 0 (fm [0] []);      (* MSpawn 5 to itself *)
+   StFrame 0 (fm [0] [0]);     (* a replica E0 of its own entity 5, same uuid *)
+   StApp 0 (OSetParent 5 E0);
+   StFrame 0 (fm [0] []);      (* MParented 5 5 *)
+   StFrame 0 (fm [0] [0])].
+Example self_client_panics :
+  conforming 1 self_client /\
+  p_panic <$> (grun (init_global 1) self_client !! 0) = Some (Some PSetParentSelf).
+Proof. split; vm_compute; reflexivity. Qed.
+
+(* With truthful oracles the statement still fails for an executable order Bevy never builds (the
+   client systems are .chain()ed in src/client/mod.rs: removed ... poll).  Client 1 runs
+   [poll; entity_removed_from_client; sync]: the replica reserved by poll is not alive yet when
+   entity_removed walks uuid_to_entity, so the uuid is forgotten and the second MSpawn 5 (the host
+   sends one live and one in the snapshot) passes the duplicate check: two live replicas of uuid 5.
+   Peer 1 then leaves, starts hosting, links its two replicas; the snapshot it sends to the joining
+   peer 2 contains MParented 5 5. *)
+Definition odd_cli_order : list sysid := [SCliConnecting; SCliVerify; SCliPoll; SCliRemoved; SSync].
+Definition fo1 (cl : list peer) (sp : list peer) : frame_oracle := Build_frame_oracle [] cl None sp 0 [].
+Definition odd_order : list step :=
+  [StApp 0 (OSetup true 0); StApp 1 (OSetup false 0);
+   StApp 0 (OSetOrder host_order); StApp 1 (OSetOrder odd_cli_order);
+   StFrame 0 (fh []); StFrame 0 (fh []);
+   StFrame 1 (fc 0); StFrame 1 (fc 0); StFrame 1 (fc 0);
+   StApp 0 (OSpawn 5 true []);
+   StFrame 0 (fh [1]);
+   StFrame 1 (fc 1); StFrame 1 (fc 1);
+   StApp 1 ORemoveTransports; StApp 1 (OSetup true 1); StApp 1 (OSetOrder host_order);
+   StFrame 1 (fo1 [] []); StFrame 1 (fo1 [] []); StFrame 1 (fo1 [] []);
+   StApp 1 (OSetParent E0 (E0 + 1));
+   StFrame 1 (fo1 [] []);
+   StApp 2 (OSetup false 1); StApp 2 (OSetOrder cli_order);
+   StFrame 2 (fc 0); StFrame 2 (fc 0); StFrame 2 (fc 0);
+   StFrame 1 (fo1 [2] [2]);
+   StFrame 2 (fc 10)].
+Example odd_order_panics :
+  conforming 3 odd_order /\
+  p_panic <$> (grun (init_global 3) odd_order !! 2) = Some (Some PSetParentSelf).
+Proof. split; vm_compute; reflexivity. Qed.
+
+(* Why conforming asks for "marked at most once": the model's fresh uuid of an entity is its id,
+   so re-inserting SyncMark announces the same uuid twice, the host spawns two replicas under one
+   uuid, links them, and the originating client panics.  (The Rust code draws a new Uuid::new_v4 at
+   each SyncMark: there the second announcement creates a second, differently named replica.) *)
+Definition remark : list step :=
+  [StApp 0 (OSetup true 0); StApp 1 (OSetup false 0);
+   StApp 0 (OSetOrder host_order); StApp 1 (OSetOrder cli_order);
+   StFrame 0 (fh []); StFrame 0 (fh []);
+   StFrame 1 (fc 0); StFrame 1 (fc 0); StFrame 1 (fc 0);
+   StApp 1 (OSpawn 5 true []);
+   StFrame 1 (fc 0);
+   StApp 1 (OMark 5);
+   StFrame 1 (fc 0);
+   StFrame 0 (fh [1; 1; 1]);
+   StApp 0 (OSetParent E0 (E0 + 1));
+   StFrame 0 (fh []);
+   StFrame 1 (fc 10)].
+Example remark_panics :
+  conforming_from (init_global 2) [] [] remark = false /\
+  p_panic <$> (grun (init_global 2) remark !! 1) = Some (Some PSetParentSelf).
+Proof. split; vm_compute; reflexivity. Qed.
+
+(* What remains for the full statement: a premise `valid_session` on the trace saying that
+   (i) the renet oracles are truthful (fo_clients / fo_srv_poll of a host list only peers whose
+   client transport points to it, never the host itself; a peer polls as a host only messages sent
+   to it as a host) and (ii) every order set by OSetOrder is one Bevy builds for the plugin (the
+   chains of src/client/mod.rs and src/server/mod.rs with their sync points), and, under it, the
+   invariant "no peer holds two live entities with the same uuid" (the uniqueness half of C01),
+   which gives no_self_link_sent and hence, by theorem A, C08_no_panic_statement. *)
+
+(* names asked for by the proof conventions *)
+Definition C08_refuted := C08_refuted_with_arbitrary_oracles.
+Definition C08_no_panic_partial := C08_no_panic_modulo_self_links.
+
+Print Assumptions frame_panic_sites.
+Print Assumptions frame_panic_only_self_parent.
+Print Assumptions frame_no_panic.
+Print Assumptions frame_parents_ok.
+Print Assumptions apply_cmd_panic_exact.
+Print Assumptions app_step_panic_exact.
+Print Assumptions C08_no_panic_modulo_self_links.
+Print Assumptions C08_no_panic_no_hierarchy.
+Print Assumptions no_hierarchy_no_parented.
+Print Assumptions C08_refuted.
+Print Assumptions C08_no_panic_partial.
+Print Assumptions C08_no_panic_statement_refuted.
+Print Assumptions frame_stops_iff_panicked.
+Print Assumptions frame_runs_unless_panicked.
